@@ -215,15 +215,8 @@ impl PoolEntry {
 			bail!("cannot load `Dynamic` pool entry, as there's no bootstrap method at index {}", bootstrap_method_attribute_index);
 		};
 		let handle = method.handle.clone();
-		let arguments = {
-			let mut vec = Vec::with_capacity(method.arguments.len());
-			for &argument in &method.arguments {
-				let value = pool.get_loadable(argument, bootstrap_methods)
-					.with_context(|| anyhow!("while argument for `Dynamic` at index {bootstrap_method_attribute_index:?}: {name:?} {descriptor:?} {handle:?}"))?;
-				vec.push(value); // TODO: recursion
-			}
-			vec
-		};
+		let arguments = pool.get_bootstrap_arguments(bootstrap_method_attribute_index, &method.arguments, bootstrap_methods)
+			.with_context(|| anyhow!("while argument for `Dynamic` at index {bootstrap_method_attribute_index:?}: {name:?} {descriptor:?} {handle:?}"))?;
 
 		Ok(ConstantDynamic { name, descriptor, handle, arguments })
 	}
@@ -242,15 +235,8 @@ impl PoolEntry {
 			bail!("cannot load `InvokeDynamic` pool entry, as there's no bootstrap method at index {}", bootstrap_method_attribute_index);
 		};
 		let handle = method.handle.clone();
-		let arguments = {
-			let mut vec = Vec::with_capacity(method.arguments.len());
-			for &argument in &method.arguments {
-				let value = pool.get_loadable(argument, bootstrap_methods)
-					.with_context(|| anyhow!("while argument for `InvokeDynamic` at index {bootstrap_method_attribute_index:?}: {name:?} {descriptor:?} {handle:?}"))?;
-				vec.push(value); // TODO: recursion
-			}
-			vec
-		};
+		let arguments = pool.get_bootstrap_arguments(bootstrap_method_attribute_index, &method.arguments, bootstrap_methods)
+			.with_context(|| anyhow!("while argument for `InvokeDynamic` at index {bootstrap_method_attribute_index:?}: {name:?} {descriptor:?} {handle:?}"))?;
 
 		Ok(InvokeDynamic { name, descriptor, handle, arguments })
 	}
@@ -285,9 +271,25 @@ impl PoolEntry {
 pub(crate) struct PoolRead {
 	/// We store a [`None`] for the zero index, as well as for the upper indices of [`PoolEntry::Double`] and [`PoolEntry::Long`].
 	inner: Vec<Option<PoolEntry>>,
+	/// The indices of the bootstrap methods whose arguments are being resolved right now (innermost last). An argument may
+	/// itself be a `Dynamic` entry; one that leads back to a bootstrap method in this list depends on itself.
+	resolving_bootstrap_methods: std::cell::RefCell<Vec<u16>>,
 }
 
 impl PoolRead {
+	/// Resolves the arguments of the bootstrap method at `bootstrap_method_attribute_index`, refusing ones that depend on themselves.
+	fn get_bootstrap_arguments(&self, bootstrap_method_attribute_index: u16, arguments: &[u16], bootstrap_methods: &Option<Vec<BootstrapMethodRead>>) -> Result<Vec<Loadable>> {
+		if self.resolving_bootstrap_methods.borrow().contains(&bootstrap_method_attribute_index) {
+			bail!("the arguments of the bootstrap method at index {bootstrap_method_attribute_index} depend on themselves");
+		}
+		self.resolving_bootstrap_methods.borrow_mut().push(bootstrap_method_attribute_index);
+		let result = arguments.iter()
+			.map(|&argument| self.get_loadable(argument, bootstrap_methods))
+			.collect();
+		self.resolving_bootstrap_methods.borrow_mut().pop();
+		result
+	}
+
 	/// Reads the constant pool from the specified reader. The first thing read is an `u16` specifying the size of the constant pool.
 	pub(crate) fn read(reader: &mut impl ClassRead) -> Result<PoolRead> {
 		let mut pool = vec![None];
@@ -395,7 +397,7 @@ impl PoolRead {
 			};
 		}
 
-		Ok(PoolRead { inner: pool })
+		Ok(PoolRead { inner: pool, resolving_bootstrap_methods: std::cell::RefCell::new(Vec::new()) })
 	}
 
 	fn get(&self, index: u16) -> Result<&PoolEntry> {
